@@ -120,6 +120,8 @@ def _apply(objs, op, values):
 
 
 def _fixval(kw, val):
+    if kw == "properties":
+        return [_fixp(p) for p in val]
     if kw in ("patternProperties", "depsS"):
         return [[p[0], _fix(p[1])] for p in val]
     return val
